@@ -1,8 +1,159 @@
 ------------------------------ MODULE Lang ------------------------------
-\* C13: :lang() = RFC 4647 extended filtering over the inherited language. s = [k |-> "lang", ranges |-> Seq(Str)]
-\* STUB - to be filled in.  Every operator other than the entry point must carry a module-specific
-\* prefix, because CssDecl EXTENDS this module together with its siblings (shared name space).
+\* C13 (R stratum): :lang() = RFC 4647 extended filtering (section 3.3.2) over the element's
+\* inherited language.  Written from RFC 4647, Selectors 4 (section 7.2) and the wording of the
+\* property, not from the implementation.   s = [k |-> "lang", ranges |-> Seq(Str)]
+\*
+\* Every operator other than the entry point LangHolds carries the prefix Lang / L_ because
+\* CssDecl EXTENDS this module together with its siblings (one shared name space).
 EXTENDS Integers, Sequences, FiniteSets, Str, Dom
 
-LangHolds(d, s, i) == FALSE
+LangDash == 45                                          \* '-'
+LangWild == <<42>>                                      \* "*"
+LangAttrName == <<108,97,110,103>>                      \* "lang"
+LangHtmlName == <<104,116,109,108>>                     \* "html"
+LangHeadName == <<104,101,97,100>>                      \* "head"
+LangMetaName == <<109,101,116,97>>                      \* "meta"
+LangHttpEquiv == <<104,116,116,112,45,101,113,117,105,118>>                          \* "http-equiv"
+LangContentAttr == <<99,111,110,116,101,110,116>>                                    \* "content"
+LangContentLanguage == <<99,111,110,116,101,110,116,45,108,97,110,103,117,97,103,101>>  \* "content-language"
+
+\* ---------------------------------------------------------------------------------------------
+\* 1. The filter: RFC 4647 section 3.3.2 on lists of subtags
+\* ---------------------------------------------------------------------------------------------
+\* "split both the extended language range and the language tag being compared into a list of
+\* subtags by dividing on the hyphen"; all comparisons are ASCII-case-insensitive, so fold first.
+LangSubtags(s) == Split(Lower(s), LangDash)
+
+\* singleton = a single letter or digit (this includes the private-use subtag "x"); the argument
+\* is already lower-cased
+LangSingleton(st) ==
+    Len(st) = 1 /\ ((st[1] >= 97 /\ st[1] <= 122) \/ (st[1] >= 48 /\ st[1] <= 57))
+
+\* Step 3 (the loop) and step 4.  r, t: lists of subtags; ri, ti: the subtags currently examined.
+RECURSIVE LangStep3(_, _, _, _)
+LangStep3(r, t, ri, ti) ==
+    IF ri > Len(r) THEN TRUE                                        \* 4.  range exhausted: the match succeeds
+    ELSE IF r[ri] = LangWild THEN LangStep3(r, t, ri + 1, ti)       \* 3A. wildcard: next range subtag
+    ELSE IF ti > Len(t) THEN FALSE                                  \* 3B. the tag ran out
+    ELSE IF r[ri] = t[ti] THEN LangStep3(r, t, ri + 1, ti + 1)      \* 3C. equal: advance both
+    ELSE IF LangSingleton(t[ti]) THEN FALSE                         \* 3D. a singleton is never skipped
+    ELSE LangStep3(r, t, ri, ti + 1)                                \* 3E. skip this subtag of the tag
+
+\* Step 2: the first subtags must be equal unless the range starts with the wildcard.
+LangExtFilter(r, t) == (r[1] = LangWild \/ r[1] = t[1]) /\ LangStep3(r, t, 2, 2)
+
+\* The two additions of Selectors 4: the empty range stands for "explicitly no language" and matches
+\* only the empty tag; nothing else (in particular "*") matches the empty tag.
+LangFilter(range, tag) ==
+    IF range = <<>> THEN tag = <<>>
+    ELSE IF tag = <<>> THEN FALSE
+    ELSE LangExtFilter(LangSubtags(range), LangSubtags(tag))
+
+\* ---- the same relation said declaratively (used by the design-level theorems only) -----------
+\* Without the wildcards the rest of the range is a subsequence of the rest of the tag, and every
+\* subtag of the tag that is passed over on the way to the last matched one is not a singleton.
+RECURSIVE L_SortedSeq(_)
+L_SortedSeq(S) == IF S = {} THEN <<>> ELSE LET m == CHOOSE x \in S : \A y \in S : x <= y
+                                           IN <<m>> \o L_SortedSeq(S \ {m})
+L_NonWild(r) == SelectSeq(r, LAMBDA x : x # LangWild)
+LangEmbeds(r, t) ==
+    LET rest == L_NonWild(Tail(r))        \* the wildcard in other than first position adds nothing
+    IN /\ (r[1] = LangWild \/ r[1] = t[1])
+       /\ \E P \in SUBSET (2..Len(t)) :
+             /\ Cardinality(P) = Len(rest)
+             /\ LET ps == L_SortedSeq(P) IN
+                  /\ \A n \in 1..Len(rest) : t[ps[n]] = rest[n]
+                  /\ \A q \in 2..Len(t) : (q \notin P /\ \E p \in P : q < p) => ~LangSingleton(t[q])
+LangFilterDecl(range, tag) ==
+    IF range = <<>> THEN tag = <<>>
+    ELSE IF tag = <<>> THEN FALSE
+    ELSE LangEmbeds(LangSubtags(range), LangSubtags(tag))
+
+L_UpperC(c) == IF c >= 97 /\ c <= 122 THEN c - 32 ELSE c
+LangUpper(s) == [i \in 1..Len(s) |-> L_UpperC(s[i])]
+\* the first n subtags of a tag, joined again
+LangPrefix(tag, n) == Join(SubSeq(Split(tag, LangDash), 1, n), <<LangDash>>)
+\* range with its non-initial wildcards removed
+LangStripWild(range) ==
+    LET r == Split(range, LangDash) IN Join(<<r[1]>> \o L_NonWild(Tail(r)), <<LangDash>>)
+
+\* Design-level theorems about the filter, for one (range, tag) pair; the MC modules quantify them.
+\* tag is assumed to be wildcard-free (a language tag), range is arbitrary.
+LangLawCase(range, tag) ==        \* ASCII case of either side is irrelevant
+    /\ LangFilter(LangUpper(range), tag) = LangFilter(range, tag)
+    /\ LangFilter(range, LangUpper(tag)) = LangFilter(range, tag)
+    /\ LangFilter(Lower(range), Lower(tag)) = LangFilter(range, tag)
+LangLawDecl(range, tag) == LangFilter(range, tag) = LangFilterDecl(range, tag)    \* greedy scan = exists an embedding
+LangLawWild(range, tag) ==        \* a wildcard in other than the first position is redundant
+    range # <<>> => LangFilter(LangStripWild(range), tag) = LangFilter(range, tag)
+LangLawTag(tag) ==
+    /\ LangFilter(tag, tag)                                         \* a range equal to the tag matches
+    /\ LangFilter(LangWild, tag) = (tag # <<>>)                     \* "*": exactly the non-empty tags
+    /\ LangFilter(<<>>, tag) = (tag = <<>>)                         \* "": exactly the empty tag
+    /\ \A n \in 1..Len(Split(tag, LangDash)) :                      \* every prefix of the tag is a matching range
+          tag # <<>> => LangFilter(LangPrefix(tag, n), tag)
+    /\ \A n \in 1..Len(Split(tag, LangDash)) :                      \* basic filtering is subsumed, also with a
+          tag # <<>> => LangFilter(LangPrefix(tag, n) \o <<LangDash>> \o LangWild, tag)    \* redundant trailing wildcard
+
+\* ---------------------------------------------------------------------------------------------
+\* 2. The language of an element
+\* ---------------------------------------------------------------------------------------------
+\* A language is [known |-> BOOLEAN, v |-> Str]; known with v = <<>> is the explicitly empty language.
+LangUnknown == [known |-> FALSE, v |-> <<>>]
+LangKnown(v) == [known |-> TRUE, v |-> v]
+
+\* The language attribute of element j itself, as the set of its values (empty set: none).
+\* Elements of HTML documents and elements in the XHTML namespace use the un-namespaced attribute
+\* "lang" (attribute names are ASCII-case-insensitive in HTML documents: NameKey); every other XML
+\* element uses "lang" in the XML namespace (xml:lang).
+LangOwnSet(d, j) ==
+    IF IsHtmlEl(d, j)
+    THEN AttrValSet(d, j, LangAttrName)
+    ELSE {d.attrs[j][n].v : n \in {m \in 1..Len(d.attrs[j]) :
+              d.attrs[j][m].ns = XMLNS /\ NameKey(d, d.attrs[j][m].local) = LangAttrName}}
+
+\* p is not part of the document its children belong to: the container, or - in HTML and XHTML -
+\* an iframe element (its content is a document of its own)
+LangBoundary(d, p) == p = 0 \/ (IsHtml(d) /\ IsIframe(d, p))
+
+\* i and its ancestors within the same document, nearest first
+RECURSIVE LangChain(_, _)
+LangChain(d, i) == IF LangBoundary(d, d.parent[i]) THEN <<i>> ELSE <<i>> \o LangChain(d, d.parent[i])
+\* the node whose children are the top-level nodes of i's document (0 or an iframe)
+LangDocNode(d, i) == d.parent[LangChain(d, i)[Len(LangChain(d, i))]]
+
+LangInherited(d, i) ==
+    LET ch == LangChain(d, i)
+        hit == {n \in 1..Len(ch) : LangOwnSet(d, ch[n]) # {}}
+    IN IF hit = {} THEN LangUnknown
+       ELSE LangKnown(CHOOSE v \in LangOwnSet(d, ch[Min(hit)]) : TRUE)
+
+\* The content-language pragma of the document whose top-level nodes are the children of `top`:
+\* html > head > meta[http-equiv="content-language" i][content], all three HTML elements.  A pragma
+\* without content or with empty content sets no language (HTML: "if candidate is the empty string,
+\* return").  Only HTML and XHTML documents have it.
+LangIsNamed(d, j, nm) == IsEl(d, j) /\ IsHtmlEl(d, j) /\ NameKey(d, d.name[j]) = nm
+LangIsPragma(d, m) == \E v \in AttrValSet(d, m, LangHttpEquiv) : Lower(v) = LangContentLanguage
+LangPragmaMetas(d, top) ==
+    {m \in Elems(d) :
+        /\ LangIsNamed(d, m, LangMetaName)
+        /\ d.parent[m] # 0 /\ LangIsNamed(d, d.parent[m], LangHeadName)
+        /\ d.parent[d.parent[m]] # 0 /\ LangIsNamed(d, d.parent[d.parent[m]], LangHtmlName)
+        /\ d.parent[d.parent[d.parent[m]]] = top
+        /\ LangIsPragma(d, m)
+        /\ \E v \in AttrValSet(d, m, LangContentAttr) : v # <<>>}
+LangPragma(d, top) ==
+    IF ~IsHtml(d) \/ LangPragmaMetas(d, top) = {} THEN LangUnknown
+    ELSE LangKnown(CHOOSE v \in AttrValSet(d, Min(LangPragmaMetas(d, top)), LangContentAttr) : v # <<>>)
+
+\* nearest language attribute within the document, otherwise the document's pragma, otherwise unknown
+LangOf(d, i) ==
+    IF LangInherited(d, i).known THEN LangInherited(d, i) ELSE LangPragma(d, LangDocNode(d, i))
+
+\* ---------------------------------------------------------------------------------------------
+\* 3. :lang(r1, r2, ...)
+\* ---------------------------------------------------------------------------------------------
+LangHolds(d, s, i) ==
+    LET lg == LangOf(d, i)
+    IN lg.known /\ \E n \in 1..Len(s.ranges) : LangFilter(s.ranges[n], lg.v)
 =============================================================================
